@@ -443,10 +443,66 @@ def run_grid_safe(case):
         um.Frame = real
 
 
+# ---- the chain as the Util filter applies it: transforms listed for all topics and for named topics, in the listed order ------------
+
+@st.composite
+def process_case(draw, max_dim):
+    base = draw(xform_case(max_dim))
+    return {**base, 'tps': [draw(st.sampled_from([None, None, ['main'], ['other'], ['main', 'other']])) for _ in base['chain']],
+            'form': draw(st.sampled_from(['text', 'struct']))}
+
+
+def run_process(case):
+    np, Frame, Util = _U['np'], _U['Frame'], _U['Util']
+    from openfilter.filter_runtime.utils import adict
+    fmt = case['img']['fmt']
+    specs = []
+    for x, tp in zip(case['chain'], case['tps']):
+        if case['form'] == 'text' or x.get('form') != 'struct':
+            specs.append(xform_text(x) + ''.join(f';{t}' for t in (tp or [])))
+        else:
+            d = xform_struct(x)
+            if tp:
+                d.topics = list(tp)
+            specs.append(d)
+    try:
+        cfg = Util.normalize_config({'id': 'u', 'xforms': specs})
+    except Exception as e:
+        return bad(f'normalize_config rejected a valid xform list {specs!r}: {type(e).__name__}: {e}', f'normalize:{type(e).__name__}')
+    flt = object.__new__(Util)
+    flt.config = cfg
+    flt.setup(cfg)
+    fresh = lambda: {'main': Frame(gen.build_image(case['img']), {'k': 1}, fmt), 'other': Frame(gen.build_image({**case['img'], 'seed': case['img']['seed'] + 1}), {'k': 2}, fmt)}
+    try:
+        try:
+            got = flt.process(fresh())
+        except Exception as e:
+            return bad(f'Util.process failed on valid frames with {specs!r}: {type(e).__name__}: {str(e)[:200]}', f'process-raises:{type(e).__name__}')
+        exp = fresh()
+        for t in ('main', 'other'):
+            f = exp[t]
+            for xf, tp in zip(cfg.xforms, case['tps']):
+                if tp is None or t in tp:
+                    f = flt.execute_xforms(adict(topic=t, frame=f, xforms=[xf])).frame
+            exp[t] = f
+        for t in ('main', 'other'):
+            a, b = np.asarray(got[t].image), np.asarray(exp[t].image)
+            if got[t].format != exp[t].format or a.shape != b.shape or not np.array_equal(a, b):
+                mine = [xform_text(x) for x, tp in zip(case['chain'], case['tps']) if tp is None or t in tp]
+                return bad(f'topic {t!r}: the filter did not apply its transforms {mine} in the listed order: result {a.shape[1]}x{a.shape[0]} {got[t].format}, '
+                           f'applying them one after the other gives {b.shape[1]}x{b.shape[0]} {exp[t].format}' + ('' if a.shape != b.shape else ' with other pixels'),
+                           'process-order', [f'chain length {len(specs)}'])
+    finally:
+        flt.executor.shutdown(wait=True)
+    mixed = any(tp is None for tp in case['tps']) and any(tp is not None for tp in case['tps'])
+    return ok(len(specs) >= 2 and mixed, [f'chain length {len(specs)}'] + (['all-topics and named-topic transforms mixed'] if mixed else []), None)
+
+
 PARTS = [
+    Part('filter_process', run_process, strategy=lambda tier: process_case(300 if tier == 'quick' else 2000), examples={'quick': 120, 'thorough': 3000}, share=0.15),
     Part('util_xforms', run_xform, strategy=lambda tier: xform_case(400 if tier == 'quick' else 3000),
-         examples={'quick': 250, 'thorough': 6000}, share=0.5),
+         examples={'quick': 250, 'thorough': 6000}, share=0.4),
     Part('video_reader', run_video, strategy=lambda tier: vr_case(400 if tier == 'quick' else 3000),
-         examples={'quick': 150, 'thorough': 4000}, share=0.3),
+         examples={'quick': 150, 'thorough': 4000}, share=0.25),
     Part('size_grid', run_grid_safe, kind='enum', cases=grid_cases, share=0.2),
 ]
